@@ -8,6 +8,7 @@ use convert_case::{Case, Casing};
 use proc_macro2::TokenStream;
 use proc_macro2::{Ident, Span};
 use quote::quote;
+use syn::ext::IdentExt;
 use syn::spanned::Spanned;
 use syn::{parse_quote, Data, DeriveInput, WherePredicate};
 
@@ -140,7 +141,7 @@ impl DerivedTypeInfo {
                         // The key in the serialized value representing the variant, which is influenced by the
                         // `rename` and `rename_all` attributes
                         let key_name = key_name_for_ident(
-                            variant.ident.to_string(),
+                            variant.ident.unraw().to_string(),
                             attrs.rename_all.as_ref(),
                             renamed.as_deref(),
                         );
@@ -474,7 +475,7 @@ impl NamedFieldsInfo {
 
             let renamed = attrs.rename.as_ref().map(|i| i.value());
             let key_name = key_name_for_ident(
-                field_name.to_string(),
+                field_name.unraw().to_string(),
                 data_attrs.rename_all.as_ref(),
                 renamed.as_deref(),
             );
